@@ -210,3 +210,15 @@ Theorem incdec_reg_ops_correct : forall st m (sub : bool) sz dst nd sd xd lhs,
     env_get (st_env st') kCF = env_get (st_env st) kCF.
 Proof. exact X86Proofs.incdec_reg_ops_correct. Qed.
 Print Assumptions incdec_reg_ops_correct.
+
+(* 7. glue to the runner of the differential check: a one-block instruction graph (what every mirrored
+      builder returns) run by X86Run.il_run (iterated Sem.sem_step) from its first instruction ends with the
+      state that running the operation list in sequence gives, for any operation list without Branch *)
+Theorem il_run_one_block : forall addr ops,
+  (forall o, In o ops -> is_branch o = false) ->
+  forall suf pre st st' fuel,
+    ops = pre ++ suf -> suf <> [] -> exec_ops st suf = Ok st' -> (length suf <= fuel)%nat ->
+    X86Run.il_run fuel (mkfunc addr (X86Mirror.one_block addr ops) None) (Loc.LInstr 0 (Z.of_nat (length pre))) st
+    = X86Run.ILFin st' None.
+Proof. exact X86Proofs.il_run_one_block. Qed.
+Print Assumptions il_run_one_block.
